@@ -131,6 +131,10 @@ def configs(tier):
                     if tier == "quick" and (n, p, k) in ((4, 1, 1), (4, 3, 1)) and (fl or w):
                         continue
                     add("h_eof", f"{cls}|n{n}p{p}k{k}|{keyof(fl)}|w{int(w)}", cls=cls, n=n, p=p, k=k, flags=fl, weights=w)
+    if tier == "quick":
+        # wide and rank-deficient: n < p, all n modes requested, centring makes the last singular value exactly zero
+        add("h_eof", "EOF|n3p4k3|default|w0", cls="EOF", n=3, p=4, k=3, flags={}, weights=False)
+        add("h_eof", "ComplexEOF|n3p4k3|default|w0", cls="ComplexEOF", n=3, p=4, k=3, flags={}, weights=False)
     add("h_eof", "EOF|3d-coslat", cls="EOF", n=4, p=4, k=2, layout="3d-coslat", flags={"use_coslat": True})
     add("h_eof", "EOF|3d-coslat|standardize|w", cls="EOF", n=4, p=4, k=2, layout="3d-coslat", flags={"use_coslat": True, "standardize": True}, weights=True)
     for solver in ("auto", "randomized"):
